@@ -73,6 +73,8 @@ func (e *Exec) globalCell(g *ssa.Global) *Value {
 		// sentinel error of a dependency (io.EOF, context.Canceled, ...):
 		// a distinct non-nil opaque error object
 		v = e.sentinelError(g)
+	} else if k := e.depGlobalConst(g); k != nil {
+		v = k
 	} else {
 		v = &unsupportedGlobal{g}
 	}
@@ -83,6 +85,40 @@ func (e *Exec) globalCell(g *ssa.Global) *Value {
 }
 
 type unsupportedGlobal struct{ g *ssa.Global }
+
+// depGlobalConst: a dependency's package-level variable that its init
+// function initialises with a constant (e.g. mysql.PacketEOF = iEOF) and that
+// nothing else in the package assigns.
+func (e *Exec) depGlobalConst(g *ssa.Global) Value {
+	init := g.Pkg.Func("init")
+	if init == nil {
+		return nil
+	}
+	var found *ssa.Const
+	for _, m := range g.Pkg.Members {
+		fn, ok := m.(*ssa.Function)
+		if !ok {
+			continue
+		}
+		for _, b := range fn.Blocks {
+			for _, ins := range b.Instrs {
+				st, ok := ins.(*ssa.Store)
+				if !ok || st.Addr != ssa.Value(g) {
+					continue
+				}
+				k, isConst := st.Val.(*ssa.Const)
+				if !isConst || fn != init || found != nil {
+					return nil
+				}
+				found = k
+			}
+		}
+	}
+	if found == nil {
+		return nil
+	}
+	return e.constValue(found)
+}
 
 func (e *Exec) sentinelError(g *ssa.Global) Value {
 	// *errors.errorString{s: "<pkg.Name>"}
